@@ -14,7 +14,7 @@ use std::panic::{catch_unwind, AssertUnwindSafe};
 use std::time::Duration;
 
 #[derive(Clone, Debug)]
-pub struct Case { pub dom: String, pub user: String, pub pw: String, pub from_hash: bool, pub ra: bool, pub id: usize, pub flags: u32, pub sc: [u8; 8], pub ti: Vec<u8>, pub reply: String, pub reply1: String }
+pub struct Case { pub dom: String, pub user: String, pub pw: String, pub from_hash: bool, pub ra: bool, pub id: usize, pub flags: u32, pub sc: [u8; 8], pub ti: Vec<u8>, pub reply: String, pub reply1: String, pub pre: String }
 
 #[derive(Default, Debug)]
 pub struct SrvOut { pub r1: Vec<u8>, pub faulted1: bool, pub m1: Vec<u8>, pub m2: Vec<u8>, pub r2: Vec<u8>, pub m3: Vec<u8>, pub k: Option<Vec<u8>>, pub client_pk_ok: Option<bool>, pub honest_pka: Vec<u8>, pub creds: Option<Vec<u8>>, pub note: String }
@@ -22,7 +22,7 @@ pub struct SrvOut { pub r1: Vec<u8>, pub faulted1: bool, pub m1: Vec<u8>, pub m2
 fn flip(b: &mut Vec<u8>, bit: usize) { if bit / 8 < b.len() { b[bit / 8] ^= 1 << (bit % 8); } }
 
 /// the reply bytes for a recipe; `seal` is the server context after it unsealed the client's token
-fn build_reply(recipe: &str, k: &[u8], spk: &[u8], spk_other: &[u8], client_pka: &[u8], seal: &mut ServerSeal) -> (Vec<u8>, Vec<u8>) {
+fn build_reply(recipe: &str, k: &[u8], spk: &[u8], spk_other: &[u8], client_pka: &[u8], seal: &mut ServerSeal, field_key: &[u8], replay: &[u8]) -> (Vec<u8>, Vec<u8>) {
     let plus1 = le_add(spk, 1).unwrap();
     let mut probe = ServerSeal { seal_out: seal.seal_out.clone(), seal_in: seal.seal_in.clone(), sign_out: seal.sign_out.clone(), sign_in: seal.sign_in.clone(), seq_out: seal.seq_out };
     let honest_pka = probe.seal(&plus1);
@@ -49,6 +49,11 @@ fn build_reply(recipe: &str, k: &[u8], spk: &[u8], spk_other: &[u8], client_pka:
         "bercons" => { let h = honest_pka.len() / 2; let inner = { let mut c = der(0x04, &honest_pka[..h]); c.extend(der(0x04, &honest_pka[h..])); der(0x24, &c) }; let body = { let mut b = der(0xa0, &der(0x02, &[2])); b.extend(der(0xa3, &inner)); b }; der(0x30, &body) }
         "longform" => { let body = &honest[4..]; let mut v = vec![0x30, 0x83, 0, (body.len() >> 8) as u8, body.len() as u8]; v.extend(body); v }
         "withnego" => ts_request(Some(&[1, 2, 3]), Some(&honest_pka), 2),
+        // adversaries that never use the account key: a guessed (all-zero) session key, the key field of the
+        // AUTHENTICATE message taken as the key itself, the recorded final reply of an earlier session
+        "zerokey" => { let mut s2 = ServerSeal::new(&[0u8; 16]); ts_request(None, Some(&s2.seal(&plus1)), 2) }
+        "fieldkey" => { let mut s2 = ServerSeal::new(field_key); ts_request(None, Some(&s2.seal(&plus1)), 2) }
+        "replay" => replay.to_vec(),
         "raw" => unhex(arg),
         "empty" => vec![],
         _ => honest.clone(),
@@ -56,7 +61,7 @@ fn build_reply(recipe: &str, k: &[u8], spk: &[u8], spk_other: &[u8], client_pka:
     (r, honest_pka)
 }
 
-fn server(mut raw: UnixStream, id: usize, acc_key: Vec<u8>, chal: Vec<u8>, sc: [u8; 8], recipe: String, recipe1: String) -> SrvOut {
+fn server(mut raw: UnixStream, id: usize, acc_key: Vec<u8>, chal: Vec<u8>, sc: [u8; 8], recipe: String, recipe1: String, replay_rx: Option<std::sync::mpsc::Receiver<Vec<u8>>>) -> SrvOut {
     let mut out = SrvOut::default();
     raw.set_read_timeout(Some(Duration::from_secs(3))).ok();
     let (ident, spk) = identity(id);
@@ -87,7 +92,10 @@ fn server(mut raw: UnixStream, id: usize, acc_key: Vec<u8>, chal: Vec<u8>, sc: [
     out.k = Some(k.clone());
     let mut seal = ServerSeal::new(&k);
     if let Some((pt, good)) = seal.unseal(&client_pka) { out.client_pk_ok = Some(good && pt == spk); }
-    let (r2, honest_pka) = build_reply(&recipe, &k, &spk, &spk_other, &client_pka, &mut seal);
+    // EncryptedRandomSessionKey field of the AUTHENTICATE message as it travelled (visible to anyone)
+    let field_key: Vec<u8> = if auth.len() >= 64 { let (l, o) = (auth[52] as usize | (auth[53] as usize) << 8, auth[56] as usize | (auth[57] as usize) << 8 | (auth[58] as usize) << 16); if l == 16 && o + 16 <= auth.len() { auth[o..o + 16].to_vec() } else { vec![0; 16] } } else { vec![0; 16] };
+    let replay: Vec<u8> = match &replay_rx { Some(rx) => rx.recv_timeout(Duration::from_secs(5)).unwrap_or_default(), None => vec![] };
+    let (r2, honest_pka) = build_reply(&recipe, &k, &spk, &spk_other, &client_pka, &mut seal, &field_key, &replay);
     out.honest_pka = honest_pka;
     out.r2 = r2.clone();
     if r2.is_empty() { let _ = tls.shutdown(); } else if !write_all(&mut tls, &r2) { out.note = "write reply".into(); return out; }
@@ -112,7 +120,7 @@ pub fn parse_ts_credentials(b: &[u8]) -> Option<(Vec<u8>, Vec<u8>, Vec<u8>)> {
 }
 
 pub fn run(em: &mut Emitter, c: &Case) {
-    watch_begin(&format!("cssp dom8={} usr8={} pwd8={} hash={} ra={} id={} flags={:08x} sc={} ti={} reply={} reply1={}", hex(c.dom.as_bytes()), hex(c.user.as_bytes()), hex(c.pw.as_bytes()), c.from_hash as u8, c.ra as u8, c.id, c.flags, hex(&c.sc), hex(&c.ti), c.reply, if c.reply1.is_empty() { "honest" } else { &c.reply1 }));
+    watch_begin(&format!("cssp dom8={} usr8={} pwd8={} hash={} ra={} id={} flags={:08x} sc={} ti={} reply={} reply1={} pre={}", hex(c.dom.as_bytes()), hex(c.user.as_bytes()), hex(c.pw.as_bytes()), c.from_hash as u8, c.ra as u8, c.id, c.flags, hex(&c.sc), hex(&c.ti), c.reply, if c.reply1.is_empty() { "honest" } else { &c.reply1 }, c.pre));
     let nt_hash = md4(&utf16(&c.pw));
     let acc = Account { domain: c.dom.clone(), user: c.user.clone(), password: c.pw.clone() };
     let key = acc.key();
@@ -120,23 +128,43 @@ pub fn run(em: &mut Emitter, c: &Case) {
     let chal = challenge(c.flags, &c.sc, &c.ti, version, 0, 0);
     let (a, b) = UnixStream::pair().expect("socketpair");
     a.set_read_timeout(Some(Duration::from_secs(3))).ok();
+    // an earlier, complete and honest exchange on the very same Ntlm object (`pre`): "same" = same CHALLENGE
+    // flags, "flip" = the opposite UNICODE choice; its final reply is what the `replay` adversary sends later
+    let has_pre = !c.pre.is_empty();
+    let (pa, pb) = UnixStream::pair().expect("socketpair");
+    pa.set_read_timeout(Some(Duration::from_secs(3))).ok();
+    let pre_flags = if c.pre == "flip" { c.flags ^ 1 } else { c.flags };
+    let pre_sc = { let mut x = c.sc; x[0] ^= 0x5a; x };
+    let pre_chal = challenge(pre_flags, &pre_sc, &c.ti, pre_flags & 0x02000000 != 0, 0, 0);
+    let (rtx, rrx) = std::sync::mpsc::channel::<Vec<u8>>();
+    let pre_th = if has_pre { let (id, key2) = (c.id, key.clone()); Some(std::thread::spawn(move || server(pb, id, key2, pre_chal, pre_sc, "honest".into(), "honest".into(), None))) } else { drop(pb); None };
     let (id, sc, recipe, recipe1, key2, chal2) = (c.id, c.sc, c.reply.clone(), c.reply1.clone(), key.clone(), chal.clone());
-    let th = std::thread::spawn(move || server(b, id, key2, chal2, sc, recipe, recipe1));
+    let th = std::thread::spawn(move || server(b, id, key2, chal2, sc, recipe, recipe1, Some(rrx)));
     let c2 = c.clone();
     // the client runs under a watchdog: a call that neither returns nor fails within the deadline
     // (a spin on a closed link, say) is reported as such and its thread abandoned
     let (txr, rxr) = std::sync::mpsc::channel();
+    let (ptx, prx) = std::sync::mpsc::channel::<bool>();
     std::thread::spawn(move || {
         let res = catch_unwind(AssertUnwindSafe(move || -> Result<(), String> {
+            let mut ntlm = if c2.from_hash { Ntlm::from_hash(c2.dom.clone(), c2.user.clone(), &nt_hash) } else { Ntlm::new(c2.dom.clone(), c2.user.clone(), c2.pw.clone()) };
+            if has_pre {
+                let mut l0 = Link::new(Stream::Raw(pa)).start_ssl(false).map_err(|e| format!("ssl {:?}", e))?;
+                let r0 = cssp::cssp_connect(&mut l0, &mut ntlm, c2.ra);
+                drop(l0);
+                let _ = ptx.send(r0.is_ok());
+            } else { drop(pa); let _ = ptx.send(true); }
             let link = Link::new(Stream::Raw(a)).start_ssl(false).map_err(|e| format!("ssl {:?}", e))?;
             let mut link = link;
-            let mut ntlm = if c2.from_hash { Ntlm::from_hash(c2.dom.clone(), c2.user.clone(), &nt_hash) } else { Ntlm::new(c2.dom.clone(), c2.user.clone(), c2.pw.clone()) };
             let r = cssp::cssp_connect(&mut link, &mut ntlm, c2.ra).map_err(|e| format!("{:?}", e));
             drop(link);
             r
         }));
         let _ = txr.send(match res { Ok(Ok(())) => "ok", Ok(Err(_)) => "E", Err(_) => "P" });
     });
+    let pre_ok = prx.recv_timeout(Duration::from_secs(8)).unwrap_or(false);
+    let pre_out = match pre_th { Some(t) => t.join().unwrap_or_default(), None => SrvOut::default() };
+    let _ = rtx.send(pre_out.r2.clone());
     let status = rxr.recv_timeout(Duration::from_secs(8)).unwrap_or("T");
     let so = th.join().unwrap_or_default();
     let mut all = so.m1.clone(); all.extend(&so.m2); all.extend(&so.m3);
@@ -149,8 +177,8 @@ pub fn run(em: &mut Emitter, c: &Case) {
     let r1obs = { let r1 = so.r1.clone(); match catch_unwind(move || cssp::read_ts_server_challenge(&r1)) { Ok(Ok(v)) => format!("ok_{}", hex(&v)), Ok(Err(_)) => "E".to_string(), Err(_) => "P".to_string() } };
     let (_, spk) = identity(c.id);
     let client_pw = if c.from_hash { String::new() } else { c.pw.clone() };
-    let line = format!("cssp dom8={} usr8={} pwd8={} hash={} ra={} id={} flags={:08x} sc={} ti={} reply={} reply1={} key={} dom16={} usr16={} neg={} chal={} cc={} ek={} pw16={} ud16={} cp16={} cp8={} spk={} r2obs={} r2={} r1obs={}",
-        hex(c.dom.as_bytes()), hex(c.user.as_bytes()), hex(c.pw.as_bytes()), c.from_hash as u8, c.ra as u8, c.id, c.flags, hex(&c.sc), hex(&c.ti), c.reply, if c.reply1.is_empty() { "honest" } else { &c.reply1 },
+    let line = format!("cssp dom8={} usr8={} pwd8={} hash={} ra={} id={} flags={:08x} sc={} ti={} reply={} reply1={} pre={} key={} dom16={} usr16={} neg={} chal={} cc={} ek={} pw16={} ud16={} cp16={} cp8={} spk={} r2obs={} r2={} r1obs={}",
+        hex(c.dom.as_bytes()), hex(c.user.as_bytes()), hex(c.pw.as_bytes()), c.from_hash as u8, c.ra as u8, c.id, c.flags, hex(&c.sc), hex(&c.ti), c.reply, if c.reply1.is_empty() { "honest" } else { &c.reply1 }, c.pre,
         hex(&key), hex(&utf16(&c.dom)), hex(&utf16(&c.user)), hex(&nego), hex(&chal), hex(&cc), hex(&so.k.clone().unwrap_or(vec![0; 16])),
         hex(&utf16(&c.pw)), hex(&utf16(&(c.user.to_uppercase() + &c.dom))), hex(&utf16(&client_pw)), hex(client_pw.as_bytes()), hex(&spk), r2obs, hex(&so.r2), r1obs);
     // implementation-side oracle
@@ -159,7 +187,8 @@ pub fn run(em: &mut Emitter, c: &Case) {
     let must_reject = so.faulted1 || match kind.as_str() { "honest" | "appendzero" | "seq" | "ver" | "withnego" => false, "flip" | "longform" | "ber83in" | "berindef" | "bercons" | "trunc" => !same_pka, "off" => c.reply != "off:1", _ => true };
     let must_accept = !so.faulted1 && matches!(kind.as_str(), "honest" | "appendzero" | "ver") || (kind == "off" && c.reply == "off:1") || ((kind == "flip" || kind == "trunc") && same_pka);
     let mut obs = Obs::new(out).nt(status == "ok").tag(Box::leak(kind.clone().into_boxed_str()));
-    if so.k.is_none() { obs = obs.viol(&format!("reference server could not complete the exchange: {}", so.note)); }
+    if has_pre && !(pre_ok && pre_out.creds.is_some()) { obs = obs.viol("the earlier honest exchange on the same Ntlm object did not complete"); }
+    else if so.k.is_none() { obs = obs.viol(&format!("reference server could not complete the exchange: {}", so.note)); }
     else if so.client_pk_ok != Some(true) { obs = obs.viol("client pubKeyAuth does not carry the server certificate key"); }
     else if status == "P" { obs = obs.viol("panic").tag("panic"); }
     else if status == "T" { obs = obs.viol("cssp_connect neither returned nor failed within 8 s (spin / hang)").tag("hang"); }
@@ -183,7 +212,7 @@ pub fn run_case(toks: &[&str], em: &mut Emitter) {
     let s = |k: &str| String::from_utf8_lossy(&unhex(&get(k))).to_string();
     let mut sc = [0u8; 8]; let scv = unhex(&get("sc")); if scv.len() == 8 { sc.copy_from_slice(&scv); }
     let c = Case { dom: s("dom8"), user: s("usr8"), pw: s("pwd8"), from_hash: get("hash") == "1", ra: get("ra") == "1", id: get("id").parse().unwrap_or(1),
-        flags: u32::from_str_radix(&get("flags"), 16).unwrap_or(0), sc, ti: unhex(&get("ti")), reply: get("reply"), reply1: get("reply1") };
+        flags: u32::from_str_radix(&get("flags"), 16).unwrap_or(0), sc, ti: unhex(&get("ti")), reply: get("reply"), reply1: get("reply1"), pre: get("pre") };
     run(em, &c);
 }
 
@@ -195,7 +224,7 @@ fn base_case(r: &mut Rng, i: usize) -> Case {
     if i % 4 < 2 { flags |= 1; }
     let mut ti = av(2, &utf16("DOM")); ti.extend(av(1, &utf16("SRV"))); ti.extend(av(7, &r.bytes(8))); ti.extend(av(0, &[]));
     let scv = r.bytes(8); let mut sc = [0u8; 8]; sc.copy_from_slice(&scv);
-    Case { dom: r.pick(&["", "DOMAIN", "домен"]).to_string(), user: r.pick(&names).to_string(), pw: r.pick(&pws).to_string(), from_hash: r.chance(1, 4), ra: r.chance(1, 4), id: 1 + (i % 3), flags, sc, ti, reply: "honest".into(), reply1: "honest".into() }
+    Case { dom: r.pick(&["", "DOMAIN", "домен"]).to_string(), user: r.pick(&names).to_string(), pw: r.pick(&pws).to_string(), from_hash: r.chance(1, 4), ra: r.chance(1, 4), id: 1 + (i % 3), flags, sc, ti, reply: "honest".into(), reply1: "honest".into(), pre: String::new() }
 }
 
 pub fn generate(thorough: bool, seed: u64, part: (usize, usize), em: &mut Emitter) {
@@ -218,13 +247,26 @@ pub fn generate(thorough: bool, seed: u64, part: (usize, usize), em: &mut Emitte
         let total = 4 + 5 + 4 + 16 + 270 + 2;   // upper bound of the honest reply length
         for n in 0..total { if thorough || n < 24 || n % 23 == 0 || n + 6 > total { let mut c = b.clone(); c.reply = format!("trunc:{}", n); if mine(&mut idx) { run(em, &c); } } }
     }
+    // adversaries that never learn the account key (a guessed all-zero session key; the key field of the
+    // AUTHENTICATE message used as the key, also when the CHALLENGE does not offer key exchange; a replay of
+    // the final reply of an earlier exchange made with the same Ntlm object): nothing may be released.
+    // And honest second exchanges on a used Ntlm object (same / opposite UNICODE choice): released as configured.
+    if part.0 == 0 {
+        for i in 0..(if thorough { 6 } else { 2 }) {
+            let b = base_case(&mut r, i);
+            for (rc, pre, fl) in &[("zerokey", "", 0u32), ("fieldkey", "", 0), ("fieldkey", "", 0x40000000), ("zerokey", "", 0x40000000), ("replay", "same", 0), ("honest", "same", 0), ("honest", "flip", 0), ("wrongkey", "flip", 0)] {
+                let mut c = b.clone(); c.reply = rc.to_string(); c.pre = pre.to_string(); c.flags &= !fl; c.ra = false;
+                run(em, &c);
+            }
+        }
+    }
     // the whole Connector::connect with NLA, also on a Connector that was used before (an earlier
     // complete connection, or an attempt refused by the server): the proof must still be the one
     // for the configured account, and credentials go out as configured
     if part.0 == 0 {
         for reuse in 0..3u8 { for (pw, ra) in &[("P@ssw0rd!", false), ("pässwörd", true)] {
             let cfg = crate::props::conn::Cfg { w: 800, h: 600, lay: 0x409, name: "rdp-rs".into(), dom: "DOM".into(), user: "user".into(), pw: pw.to_string(), hash: false, ra: *ra, blank: false, auto: false, nla: true, check: false };
-            let srv = crate::props::conn::SrvCfg { sel: 0, id: 1, uid: 1004, version: 0x80004, license_new: false, share: 0x103ea, caps: crate::props::conn::default_caps(), source: vec![], chal_flags: 0x62898235, inputs: vec![], script: vec![], reactivate: None, reuse, jrefuse: 0 };
+            let srv = crate::props::conn::SrvCfg { sel: 0, id: 1, uid: 1004, version: 0x80004, license_new: false, share: 0x103ea, caps: crate::props::conn::default_caps(), source: vec![], chal_flags: 0x62898235, inputs: vec![], script: vec![], reactivate: None, reuse, jrefuse: 0, ber: 0 };
             let _ = crate::props::conn::emit(em, &cfg, &srv);
         } }
     }
